@@ -28,16 +28,32 @@ impl<V> HashMap<String, V> {
         ensures r is Some <==> self@.contains_key(k@), r is Some ==> *r->Some_0 == self@[k@]
     { unimplemented!() }
 }
-pub struct DnsState { pub inner: HashMap<String, CacheEntry> }
-pub struct DnsCache { pub _p: () }
-impl DnsCache {
-    // round-robin cursor: changes next_index only (its body uses HashMap::get_mut; not extracted)
+impl<V> HashMap<String, V> {
     #[verifier::external_body]
-    pub fn advance(&self, host: &str, st: &mut DnsState)
-        ensures final(st).inner@.dom() == old(st).inner@.dom(),
-            forall|k: Seq<char>| old(st).inner@.contains_key(k) ==> (#[trigger] final(st).inner@[k]).addresses == old(st).inner@[k].addresses
+    pub fn insert(&mut self, k: String, v: V) -> (r: Option<V>) ensures final(self)@ == old(self)@.insert(k@, v) { unimplemented!() }
+    // a mutable reference into the map: the entry's final value is the map's final value at that key
+    #[verifier::external_body]
+    pub fn get_mut(&mut self, k: &str) -> (r: Option<&mut V>)
+        ensures old(self)@.contains_key(k@) ==> r is Some && *(r->Some_0) == old(self)@[k@] && final(self)@ == old(self)@.insert(k@, *final(r->Some_0)),
+                !old(self)@.contains_key(k@) ==> r is None && final(self)@ == old(self)@
     { unimplemented!() }
 }
+// `known`: ghost history - every (host, address) pair the resolver has ever returned; the code never touches it
+pub struct DnsState { pub inner: HashMap<String, CacheEntry>, pub known: Ghost<Set<(Seq<char>, IpAddr)>> }
+// the cache's history invariant: every cached address of a host is an address the resolver returned FOR THAT HOST
+pub open spec fn cache_sound(st: &DnsState) -> bool {
+    forall|h: Seq<char>, i: int| #![trigger st.inner@[h].addresses@[i]] st.inner@.contains_key(h) && 0 <= i < st.inner@[h].addresses@.len() ==> st.known@.contains((h, st.inner@[h].addresses@[i].ip))
+}
+pub struct DnsCache { pub _p: () }
+// Instant::now() + DEFAULT_TTL
+#[verifier::external_body] pub fn vx_expiry() -> (r: Instant) { unimplemented!() }
+// X.sort_unstable_by_key(closure): a permutation of X
+#[verifier::external_body]
+pub fn vx_sort<T>(v: &mut Vec<T>) ensures final(v)@.to_multiset() == old(v)@.to_multiset(), final(v)@.len() == old(v)@.len() { unimplemented!() }
+#[verifier::external_body]
+pub fn vx_clone_addrs(v: &Vec<SocketAddr>) -> (r: Vec<SocketAddr>) ensures r@ == v@ { unimplemented!() }
+#[verifier::external_body]
+pub fn vx_str_to_string(s: &str) -> (r: String) ensures r@ == s@ { unimplemented!() }
 #[verifier::external_body]
 pub fn vx_parse_IpAddr(s: &&str) -> (r: std::result::Result<IpAddr, ()>)
     ensures r is Ok ==> ip_display(r->Ok_0) == s@
